@@ -100,6 +100,7 @@ class NumpyBackendProvider(BackendProvider):
 
     def str_to_char_array(self, s):
         """Convert string to character array."""
+        from ..types import KGChar      # the interpreter's character class (the class above is a different type)
         return self._np.asarray([KGChar(x) for x in s], dtype=object)
 
     def compile_expr_ir(self, ir, var_syms):
